@@ -136,13 +136,24 @@ H("tlv_writers", src="h_tlv.c", props=["C04", "C02", "C01", "C17"], unwind=8,
            "setSupportInfoTLV", "setFriendlyNameTLV", "setHardwareIdTLV", "setQosCharacteristicsTLV"],
   unwindset={"h_tlv_writers.0": 162, "h_tlv_writers.1": 162, "v_copy_name.0": 42, "lltd_port_get_hw_id.0": 66, "lltd_port_get_ipv6_address.0": 18, "lltd_port_get_bssid.0": 8}, shards=8, must_reach=["end", "hostname", "rssi"])
 H("wire_headers", src="h_tlv.c", props=["C02", "C03", "C01", "C11"], unwind=8, unwindset={"h_wire_headers.0": 66, "h_wire_headers.1": 66})
-_CHAIN = ['setHostIdTLV', 'setCharacteristicsTLV', 'setPhysicalMediumTLV', 'setIPv4TLV', 'setIPv6TLV', 'setPerfCounterTLV', 'setLinkSpeedTLV', 'setHostnameTLV', 'setWirelessTLV', 'setBSSIDTLV', 'setSSIDTLV', 'setWifiMaxRateTLV', 'setWifiRssiTLV', 'setQosCharacteristicsTLV', 'setIconImageTLV', 'setFriendlyNameTLV', 'setEndOfPropertyTLV']
-for w in (0, 1):
-    H("answer_hello_wifi%d" % w, src="h_hello.c", fn="h_answer_hello", props=["C02", "C03", "C04", "C01", "C18", "C19", "C17"],
-      enforce=["answerHello"], replace=["%s/%s__chain" % (f, f) for f in _CHAIN] + ["setAPAssociationTableTLV", "setRepeaterAPLineageTLV", "setRepeaterAPTableTLV"],
-      unwind=8, unwindset={"v_build_state.0": 50},
-      defines=["V_WIFI=%d" % w, "V_TXCAP=256", "V_LIST_MAX=3"], must_reach=["end", "tx"], timeout=1800,
-      bounded="transmit buffer modelled with a constant capacity of 256 bytes (truncated-object abstraction, DESIGN 3.4); property list checked compositionally through the writers' chain contracts")
+_HOSTLENS = {"quick": [0, 7, 32, 40], "thorough": list(range(0, 41))}
+def _hello(w, hl, sl, tiers):
+    n = "answer_hello_w%d_h%d_s%d" % (w, hl, sl)
+    H(n, src="h_hello.c", fn="h_answer_hello", props=["C02", "C03", "C04", "C01", "C18", "C19", "C17"],
+      enforce=["answerHello"], unwind=8, unwindset={"v_build_state.0": 50, "v_copy_name.0": 42, "lltd_port_get_ipv6_address.0": 18, "lltd_port_get_bssid.0": 8},
+      defines=["V_WIFI=%d" % w, "V_HOSTLEN=%d" % hl, "V_SSIDLEN=%d" % sl, "V_TXCAP=256", "V_LIST_MAX=3"], must_reach=["end", "tx"], timeout=1800,
+      thorough_only=("quick" not in tiers),
+      bounded="machine-name length %d, SSID length %d (one run per length: quick 0/7/32/40, thorough every 0..40); transmit buffer modelled with a constant capacity of 256 bytes" % (hl, sl))
+    return n
+_HELLO_ALL, _HELLO_QUICK = [], []
+for hl in _HOSTLENS["thorough"]:
+    q = hl in _HOSTLENS["quick"]
+    n = _hello(0, hl, 0, ["quick", "thorough"] if q else ["thorough"]); _HELLO_ALL.append(n)
+    if q: _HELLO_QUICK.append(n)
+for sl in _HOSTLENS["thorough"]:
+    q = sl in _HOSTLENS["quick"]
+    n = _hello(1, 7, sl, ["quick", "thorough"] if q else ["thorough"]); _HELLO_ALL.append(n)
+    if q: _HELLO_QUICK.append(n)
 
 # ---------------------------------------------------------------- platform layer / embedded entry point / closure
 import closure
@@ -155,20 +166,20 @@ H("esp32_frame", src="h_esp32.c", props=["C01"], unwind=8,
   must_reach=["end", "handled", "short"], no_native=True,
   bounded="told lengths 0..40 (the header guard is at 32); the buffer object has exactly the told length")
 
-_FRAME_PATH = ["parse_frame", "answer_hello_wifi0", "answer_hello_wifi1", "send_probe", "parse_emit", "parse_emit_strict",
+_FRAME_PATH = ["parse_frame"] + _HELLO_ALL + ["send_probe", "parse_emit", "parse_emit_strict",
                "parse_probe", "parse_query", "parse_query_mtu60", "parse_query_mtu80", "send_ltr", "parse_qlt"]
 PROPS = {
     "C01": {"harnesses": _FRAME_PATH + ["tlv_writers", "wire_headers", "derive", "derive_oob", "esp32_frame", "map_step", "sess_step", "enum_step", "tick"]},
     "C02": {"harnesses": _FRAME_PATH + ["tlv_writers", "wire_headers"]},
-    "C09": {"harnesses": ["parse_frame", "parse_probe", "parse_query", "send_ltr", "parse_qlt", "send_probe", "answer_hello_wifi0"]},
-    "C17": {"harnesses": ["parse_frame", "send_probe", "parse_probe", "parse_query", "parse_qlt", "answer_hello_wifi0", "tlv_writers"],
+    "C09": {"harnesses": ["parse_frame", "parse_probe", "parse_query", "send_ltr", "parse_qlt", "send_probe", _HELLO_QUICK[1]]},
+    "C17": {"harnesses": ["parse_frame", "send_probe", "parse_probe", "parse_query", "parse_qlt", _HELLO_QUICK[1], "tlv_writers"],
             "extra_steps": [closure.core_globals]},
     "C19": {"harnesses": _FRAME_PATH + ["ctor_mapping", "ctor_enum", "ctor_session", "tab_create"]},
     "C20": {"harnesses": [], "extra_steps": [closure.core_closure], "level": "other",
             "explanation": "closure condition of the modular proof: the linked core's undefined functions are exactly port-API functions (goto level and, for every compiler x optimisation x hosted/freestanding setting of the property, object level); the repository's own lint rule; no system header beyond the freestanding set",
             "technique": "closure check of the contract proof: undefined-function set of the linked core (goto-instrument, nm over the stated compiler matrix) compared with the functions declared in lltdPort.h; DFCC additionally fails any call to a function with neither body nor contract"},
-    "C04": {"harnesses": ["tlv_writers", "answer_hello_wifi0", "answer_hello_wifi1", "linux_getters"]},
-    "C03": {"harnesses": ["answer_hello_wifi0", "answer_hello_wifi1", "wire_headers", "parse_frame"]},
+    "C04": {"harnesses": ["tlv_writers", "linux_getters"] + _HELLO_ALL},
+    "C03": {"harnesses": _HELLO_ALL + ["wire_headers", "parse_frame"]},
     "C05": {"harnesses": ["parse_frame"]},
     "C08": {"harnesses": ["send_ltr", "parse_qlt", "c08_reassembly"]},
     "C07": {"harnesses": ["parse_probe", "parse_query", "parse_query_mtu60", "parse_query_mtu80"]},
